@@ -27,7 +27,7 @@ QUICK_TOURS = [("sq1", 1, 1, 4, "sq", False), ("cq1", 1, 1, 4, "cq", False), ("s
                ("cq2", 2, 2, 8, "cq", False), ("sq4", 4, 4, 8, "sq", False), ("cq4", 4, 4, 8, "cq", False),
                ("cq4a", 4, 4, 8, "cq", True), ("cq2x4a", 2, 4, 8, "cq", True), ("both0", 1, 1, 2, "both", False)]
 THOROUGH_TOURS = QUICK_TOURS + [("cq8", 8, 8, 16, "cq", False), ("cq8a", 8, 8, 16, "cq", True), ("sq8", 8, 8, 16, "sq", False),
-                                ("both1", 1, 2, 4, "both", False), ("both2a", 2, 2, 4, "both", True), ("cq2x4", 2, 4, 8, "cq", False)]
+                                ("both1", 1, 2, 4, "both", False), ("cq2x4", 2, 4, 8, "cq", False)]
 SQPOLL, SQE128, CQE32 = 1 << 1, 1 << 10, 1 << 11
 FLAG_SETS = {"quick": [0, SQPOLL | SQE128 | CQE32], "thorough": [0, SQPOLL, SQE128, CQE32, SQPOLL | SQE128 | CQE32]}
 STALE = "content_overwritten_between_return_and_read"
@@ -144,11 +144,38 @@ def expect_failure(work, name, inv, what, **kw):
     return res, {"config": name, "invariant": inv, "shows": what, "clause": clause}
 
 
-def simulate_paths(work, name, ns, nc, h, atomic, num, depth, seed):
+def big_ring_cfg(path, ns, h, side, atomic, io, extra=""):
+    """ring sizes 16 / 32: one side, start values in a window around the wrap, horizon shortened, and for the
+    submission side in-order fills (state constraint InOrderFill) - the configuration whose edges can be counted"""
+    R.write_cfg(path, ns=ns, nc=ns, h=h, side=side, sq="ShortStarts" if side == "sq" else "OneStart",
+                cq="ShortStartsC" if side == "cq" else "OneStart", wrapping=R.CODE_NOW["Wrapping"], le=R.CODE_NOW["CqEmptyLE"],
+                atomic="TRUE" if atomic else "FALSE", invariants=("TypeOK", "CountersConsistent", "PropertyHolds" if side == "sq" or atomic else "PropertyHoldsButStaleRead"),
+                extra_const="  Last <- ShortLast\n" + extra)
+    if io:
+        open(path, "a").write("CONSTRAINT InOrderFill\n")
+    return path
+
+
+def count_edges(work, name, ns, h, side, atomic, io):
+    """exhaustive TLC run without a dump: how many transitions the configuration has"""
+    cfg = big_ring_cfg(os.path.join(work, "RingBig_%s.cfg" % name), ns, h, side, atomic, io)
+    res = core.run_tlc("Ring_MC.tla", cfg, workers=4, timeout=1500, xmx="6g", metadir=_md("big" + name))
+    core.tlc_must_pass(res, "Ring_MC " + name)
+    m = re.search(r"Finished computing initial states: (\d+) distinct", res.out)
+    return res, res.generated - (int(m.group(1)) if m else 0)
+
+
+def simulate_paths(work, name, ns, nc, h, atomic, num, depth, seed, big=None):
     cfg = os.path.join(work, "RingGen_%s.cfg" % name)
-    R.write_cfg(cfg, ns=ns, nc=nc, h=h, side="both", sq="NearWrap", cq="NearWrap", wrapping=R.CODE_NOW["Wrapping"],
-                le=R.CODE_NOW["CqEmptyLE"], atomic="TRUE" if atomic else "FALSE",
-                invariants=("Emit", "PropertyHolds" if atomic else "PropertyHoldsButStaleRead"), extra_const="  D = %d\n" % depth)
+    if big:
+        side, io = big
+        big_ring_cfg(cfg, ns, h, side, atomic, io, extra="  D = %d\n" % depth)
+        txt = open(cfg).read().replace("INVARIANTS TypeOK", "INVARIANTS Emit TypeOK")
+        open(cfg, "w").write(txt)
+    else:
+        R.write_cfg(cfg, ns=ns, nc=nc, h=h, side="both", sq="NearWrap", cq="NearWrap", wrapping=R.CODE_NOW["Wrapping"],
+                    le=R.CODE_NOW["CqEmptyLE"], atomic="TRUE" if atomic else "FALSE",
+                    invariants=("Emit", "PropertyHolds" if atomic else "PropertyHoldsButStaleRead"), extra_const="  D = %d\n" % depth)
     txt = open(cfg).read().replace("INIT Init", "INIT GInit").replace("NEXT Next", "NEXT GNext")
     open(cfg, "w").write(txt)
     res = core.run_tlc("RingGen.tla", cfg, workers=1, simulate=num, depth=depth + 2, seed=seed, timeout=900, metadir=_md("g" + name))
@@ -213,6 +240,12 @@ def run(tier):
     tours = QUICK_TOURS if quick else THOROUGH_TOURS
     sims = [("sim4x8a", 4, 8, 16, True, 100 if quick else 1000, 60), ("sim8x8a", 8, 8, 16, True, 100 if quick else 1000, 80),
             ("sim8x8", 8, 8, 16, False, 40 if quick else 400, 80)]
+    # ring sizes 16 and 32 (thorough): the completion ring of size 16 is toured; the others are too big to tour
+    # (1.1 - 1.4 M edges): simulated behaviours, visited edges counted against the exhaustively counted total
+    bigs = [] if quick else [("cq32", 32, 64, "cq", False, False, 600, 80), ("sq16io", 16, 32, "sq", False, True, 600, 80),
+                             ("sq32io", 32, 64, "sq", False, True, 400, 120)]
+    if not quick:
+        tours = tours + [("cq16", 16, 16, 32, "cq", False)]
     xfs = [("found_debug", "PropertyHolds", "code as found, overflow-checked build: tail + 1 panics at u32::MAX",
             dict(ns=2, nc=2, h=8, side="sq", cq="OneStart", wrapping="FALSE", debug="TRUE", le="TRUE", atomic="TRUE")),
            ("found_release", "PropertyHolds", "code as found: `tail <= head` answers None after the tail wrapped",
@@ -226,6 +259,8 @@ def run(tier):
     with cf.ThreadPoolExecutor(max_workers=4) as pool, cf.ThreadPoolExecutor(max_workers=2) as apool:
         f_tours = {t[0]: pool.submit(mc_and_dump, chk.work, *t, workers=2) for t in tours}
         f_sims = {s[0]: pool.submit(simulate_paths, chk.work, *s, seed=chk.seed) for s in sims}
+        f_bigsim = {b[0]: pool.submit(simulate_paths, chk.work, b[0], b[1], b[1], b[2], b[4], b[6], b[7], chk.seed, big=(b[3], b[5])) for b in bigs}
+        f_bigcnt = {b[0]: pool.submit(count_edges, chk.work, b[0], b[1], b[2], b[3], b[4], b[5]) for b in bigs if b[0] != "sq32io"}
         f_xf = [pool.submit(expect_failure, chk.work, n, inv, what, **kw) for (n, inv, what, kw) in xfs]
         f_obl = [apool.submit(run_apalache, chk.work, n, kind, args, says, tmo) for (n, kind, args, says, q, tmo) in OBLIGATIONS if q or not quick]
         xcs = [("sq2", x_cfg(2, 2, 8, 1, 0, "AllStarts", "OneStart"), "RingIndX.tla"), ("cq2", x_cfg(2, 2, 8, 0, 1, "OneStart", "AllStarts"), "RingIndX.tla")]
@@ -236,6 +271,8 @@ def run(tier):
         f_xc = [pool.submit(crosscheck, chk.work, n, c, m) for (n, c, m) in xcs]
         r_tours = {k: f.result() for k, f in f_tours.items()}
         r_sims = {k: f.result() for k, f in f_sims.items()}
+        r_sims.update({k: f.result() for k, f in f_bigsim.items()})
+        r_bigcnt = {k: f.result() for k, f in f_bigcnt.items()}
         r_xf = [f.result() for f in f_xf]
         r_obl = [f.result() for f in f_obl]
         r_xc = [f.result() for f in f_xc]
@@ -277,10 +314,16 @@ def run(tier):
             p = plans[len(plans) // 3]
             chk.sample({"config": name, "start": [p["sq0"], p["cq0"]], "steps": p["steps"][:14]})
         del plans, exps, paths, g
-    for (name, ns, nc, h, atomic, num, depth) in sims:
+    for (name, ns, nc, h, atomic, num, depth) in sims + [(b[0], b[1], b[1], b[2], b[4], b[6], b[7]) for b in bigs]:
         generated, plans, exps, nedges = r_sims[name]
         chk.transitions += generated
         st = {"behaviours": len(plans), "distinct_model_edges_visited": nedges}
+        if name in r_bigcnt:
+            cres, total = r_bigcnt[name]
+            chk.add_tlc(cres)
+            st.update({"model_states": cres.distinct, "model_edges_total": total, "edge_coverage": round(nedges / total, 4)})
+        elif name == "sq32io":
+            st["model_edges_total"] = "not enumerated (state graph too big to count in the thorough budget)"
         replay_paths(chk, bindirs, stream, plans, exps, name, "simulated " + name, st)
         sim_stats[name] = st
         conformance = conformance and not st["divergent_runs"]
@@ -297,7 +340,7 @@ def run(tier):
         wrapped = sum(1 for (reset, evs) in runs if evs and max(evs[-1]["st"]) >= reset["h"] > min(reset["sq0"], reset["cq0"]))
         rnd_stats["random_" + build] = {"runs": len(runs), "events": sum(len(evs) for _, evs in runs), "runs_crossing_u32_wrap": wrapped}
     # bounded exhaustive exploration of the real code itself (no model in the loop): every feasible sequence
-    for (ns, nc, depth) in ([(1, 1, 6), (2, 2, 5)] if quick else [(1, 1, 8), (2, 2, 7), (2, 4, 6), (4, 4, 6)]):
+    for (ns, nc, depth) in ([(1, 1, 6), (2, 2, 5)] if quick else [(1, 1, 7), (2, 2, 7), (2, 4, 6), (4, 4, 6)]):
         for build, bindir in bindirs.items():
             cmd = ["explore", ns, nc, depth]
             runs = R.run_harness(bindir, cmd)
